@@ -135,10 +135,19 @@ def r15_2(ctx):
     else:
         ctx.ok(construct, run.loc(loop), iteration_paths=n_it)
     construct = "run_server/initial message written once before the loop"
-    pre = [s for s in run.node.body if s.lineno < loop.lineno]
-    dumps = sum(1 for s in pre for x in ast.walk(s) if isinstance(x, ast.Call) and ast.unparse(x.func) == "json.dump")
-    nl = sum(1 for s in pre if ast.unparse(s).startswith("sys.stdout.write("))
-    (ctx.ok(construct, run.loc(), nontrivial=False) if dumps == 2 and nl == 1 else ctx.bad(construct, f"{dumps} dump sites / {nl} newline before the loop", run.loc()))
+    pre = run.node.body[:run.node.body.index(loop)] if loop in run.node.body else [s for s in run.node.body if s.lineno < loop.lineno]
+    ppaths = Enumerator(on_stmt, max_iter=1).run(pre, Path())
+    badp = []
+    n_pre = 0
+    for p, status in ppaths:
+        if status != NORM:
+            continue
+        n_pre += 1
+        names = [e[0] for e in p.events]
+        if names.count("DUMP") != 1 or names[names.index("DUMP"):][:3] != ["DUMP", "NL", "FLUSH"]:
+            badp.append(names)
+    (ctx.ok(construct, run.loc(), nontrivial=False, paths=n_pre) if n_pre and not badp else
+     ctx.bad(construct, f"on a way to the request loop the stdout events are {badp[0] if badp else 'none'} instead of one message, newline, flush", run.loc()))
 
 
 EXEMPT_STDOUT = {
